@@ -14,6 +14,7 @@ Lemma cur_safe : v_safe current = true.            Proof. vm_compute. reflexivit
 Lemma cur_listjson_dry : v_listjson_dry current = true.  Proof. vm_compute. reflexivity. Qed.
 Lemma cur_ts_rollback : v_ts_rollback current = true.    Proof. vm_compute. reflexivity. Qed.
 Lemma cur_force_records : v_force_records current = true. Proof. vm_compute. reflexivity. Qed.
+Lemma cur_dry_fail_guard : v_dry_fail_guard current = true. Proof. vm_compute. reflexivity. Qed.
 Lemma cur_pure : pure_variant current = true.      Proof. vm_compute. reflexivity. Qed.
 (* ---- the flags of the open findings (these two say: still open) ---- *)
 Lemma cur_fp_not_exact : v_fp_exact current = false.  Proof. vm_compute. reflexivity. Qed.
@@ -25,13 +26,13 @@ Section Cur.
   Variable Hx : fpr -> string.
 
   Definition c04_cur_checksum :=
-    c04_current_checksum matchb H Hx current cur_safe cur_listjson_dry.
+    c04_current_checksum matchb H Hx current cur_safe cur_listjson_dry cur_dry_fail_guard.
   Definition c05_cur_checksum :=
-    c05_current_checksum matchb H Hx current cur_safe cur_listjson_dry cur_force_records.
+    c05_current_checksum matchb H Hx current cur_safe cur_listjson_dry cur_dry_fail_guard cur_force_records.
   Definition c04_cur_timestamp :=
-    c04_current_timestamp matchb H Hx current cur_safe cur_listjson_dry cur_ts_rollback cur_ts_not_exact cur_force_records.
+    c04_current_timestamp matchb H Hx current cur_safe cur_listjson_dry cur_ts_rollback cur_ts_not_exact cur_force_records cur_dry_fail_guard.
   Definition c05_cur_timestamp :=
-    c05_current_timestamp matchb H Hx current cur_safe cur_listjson_dry cur_ts_rollback cur_ts_not_exact cur_force_records.
+    c05_current_timestamp matchb H Hx current cur_safe cur_listjson_dry cur_ts_rollback cur_ts_not_exact cur_force_records cur_dry_fail_guard.
 
   Lemma c12_cur : forall p h s, mon_C12 (snap_of s) (observe matchb H Hx current p s h) = true.
   Proof. intros. apply mon_C12_repaired. exact cur_pure. Qed.
